@@ -269,6 +269,21 @@ func runStream(ctx *Ctx) {
 		}
 		streamCase(ctx, max, wire, sched, exp)
 	}
+	// large messages: buffer growth far beyond the initial 512 bytes, up to the server's 1 MiB limit
+	sizes := []int{513, 4096, 65536, 73720, 73729, 100000, 300000}
+	if ctx.Thor {
+		sizes = append(sizes, 600000, 1048560)
+	}
+	for _, sz := range sizes {
+		big := &tree.Item{Kind: tree.KBytes, Tag: 0x420001, Data: r.Bytes(sz)}
+		small := tree.Gen(r, opts, 0)
+		wire := append(big.Encode(), small.Encode()...)
+		exp := &streamExpect{clean: true, msgs: []*tree.Item{big, small}, lens: []int{len(big.Encode()), len(small.Encode())}}
+		for _, max := range []int{0, 1 << 20} {
+			streamCase(ctx, max, wire, nil, exp)
+			streamCase(ctx, max, wire, []readEv{{k: 8}, {k: 1000}, {k: 65536}, {k: 7}, {k: 1 << 20}, {k: 1 << 20}, {k: 1 << 20}, {k: 1 << 20}, {k: 1 << 20}}, exp)
+		}
+	}
 	// announced lengths around the limit, exhaustively near the boundary
 	for _, max := range []int{16, 24, 512, 520, 1024} {
 		for l := max - 24; l <= max+8; l++ {
